@@ -104,7 +104,7 @@ func init() {
 	})
 	register(&propDef{
 		id:      "C30",
-		explain: "Decides structural/arithmetical necessary conditions of the integer codecs on the analysed GOARCH (amd64; thorough adds 386): (R1) the constants the overflow guard relies on satisfy, in exact big-integer arithmetic, maxIntDiv10 = floor(MaxInt/10), 10^maxSafeIntDigits-1 <= MaxInt, 10*maxIntDiv10+9 < 2^wordsize (so one sign test is decisive), 16^maxHexIntChars-1 <= MaxInt and the hex buffer holds every digit of MaxInt; (R2) in parseUintBuf every path that carries the new accumulator into the next iteration has passed either the 'few digits' test or both overflow tests with the overflow outcome excluded; (R3) in readHexInt the shift-accumulate is only reached with the digit count below maxHexIntChars; (R4) ParseUint returns an error when parseUintBuf consumed less than the whole input; (R5) AppendUint and writeHexInt reject negative input before formatting; (R6) in the integer formatters a scratch buffer taken from a pool is given back only after its last use: once Put was called nothing that derives from the pooled value (the asserted buffer, a slice of it) is read or written, since the next Get may hand it to a concurrent or re-entrant formatter that overwrites the digits. (R7) in parseUintBuf the value returned without error is, followed back through its merges, built only from constants and accumulate steps 10*acc + (byte-'0') that are reached only when the byte failed the test 'byte-'0' > 9' - no byte contributes to the value without having passed the digit test. (R8) no return of ParseUint is reachable without the scan by parseUintBuf - nothing is accepted or rejected on the input's length alone. NOT decided: the accepted language of ParseUint as a whole, AppendUint/ParseUint being inverse, values of chunk sizes.",
+		explain: "Decides structural/arithmetical necessary conditions of the integer codecs on the analysed GOARCH (amd64; thorough adds 386): (R1) the constants the overflow guard relies on satisfy, in exact big-integer arithmetic, maxIntDiv10 = floor(MaxInt/10), 10^maxSafeIntDigits-1 <= MaxInt, 10*maxIntDiv10+9 < 2^wordsize (so one sign test is decisive), 16^maxHexIntChars-1 <= MaxInt and the hex buffer holds every digit of MaxInt; (R2) in parseUintBuf every path that carries the new accumulator into the next iteration has passed either the 'few digits' test or both overflow tests with the overflow outcome excluded; (R3) in readHexInt every shift-accumulate step is only reached with the digit count below maxHexIntChars (each one on its own: a second accumulate loop is a second way into the value); (R4) ParseUint returns an error when parseUintBuf consumed less than the whole input; (R5) AppendUint and writeHexInt reject negative input before formatting; (R6) in the integer formatters a scratch buffer taken from a pool is given back only after its last use: once Put was called nothing that derives from the pooled value (the asserted buffer, a slice of it) is read or written, since the next Get may hand it to a concurrent or re-entrant formatter that overwrites the digits. (R7) in parseUintBuf the value returned without error is, followed back through its merges, built only from constants and accumulate steps 10*acc + (byte-'0') that are reached only when the byte failed the test 'byte-'0' > 9' - no byte contributes to the value without having passed the digit test. (R8) no return of ParseUint is reachable without the scan by parseUintBuf - nothing is accepted or rejected on the input's length alone. NOT decided: the accepted language of ParseUint as a whole, AppendUint/ParseUint being inverse, values of chunk sizes.",
 		run:     runC30,
 	})
 }
@@ -851,21 +851,28 @@ func returnsNonNilError(ret *ssa.Return) bool {
 func isErrorType(t interface{ String() string }) bool { return t.String() == "error" }
 
 func checkHexGuard(p *Prog, r *Report, fn *ssa.Function, maxChars int64) {
-	// find n = (n << 4) | k
-	var shl *ssa.BinOp
+	// find every n = (n << 4) | k: each accumulate step is guarded on its own (a fast path with a second one
+	// is a second way into the value)
+	var shls []*ssa.BinOp
 	for _, b := range fn.Blocks {
 		for _, in := range b.Instrs {
 			if bo, ok := in.(*ssa.BinOp); ok && bo.Op == token.SHL {
 				if k, ok := constInt(bo.Y); ok && k == 4 {
-					shl = bo
+					shls = append(shls, bo)
 				}
 			}
 		}
 	}
-	if shl == nil {
+	if len(shls) == 0 {
 		r.Undecided("R3", "readHexInt shift", "no '<< 4' found")
 		return
 	}
+	for i, shl := range shls {
+		checkHexGuardAt(p, r, fn, maxChars, shl, i)
+	}
+}
+
+func checkHexGuardAt(p *Prog, r *Report, fn *ssa.Function, maxChars int64, shl *ssa.BinOp, idx int) {
 	// the block of shl must be reachable only via the false edge of (i >= maxChars') with maxChars' <= maxChars
 	ok := false
 	var witnessPos = shl.Pos()
@@ -914,7 +921,11 @@ func checkHexGuard(p *Prog, r *Report, fn *ssa.Function, maxChars int64) {
 			}
 		}
 	}
-	r.Check("R3", "readHexInt: shift-accumulate dominated by digit-count guard", ok, p.Pos(witnessPos),
+	what := "readHexInt: shift-accumulate dominated by digit-count guard"
+	if idx > 0 {
+		what = fmt.Sprintf("readHexInt: shift-accumulate #%d dominated by digit-count guard", idx+1)
+	}
+	r.Check("R3", what, ok, p.Pos(witnessPos),
 		fmt.Sprintf("n = n<<4|k must only run while fewer than maxHexIntChars=%d digits were accumulated, the other edge returning an error", maxChars))
 }
 
